@@ -117,6 +117,12 @@ def _prepare_fail(op, case, world):
             op["vols"] = _with_bad(op["vols"], op["bad"], op["bad_pos"])
         elif kind == "distribute":
             op["vol"] = op["bad"]
+            if op["bad_pos"] % 3:
+                # two thirds of the refusals come from the source column, and then preferably not from the first one
+                op["fail_side"] = "src"
+                ncols = world.specs[op["src"] % len(world.specs)]["cols"]
+                if ncols >= 2:
+                    op["col"] = 1 + op["col"] % (ncols - 1)
         else:
             v = op["vols"]
             if isinstance(v, list):
